@@ -368,6 +368,12 @@ def run_replay(args, timeout=600):
 
 
 SIDE_TABLE_PROPS = ("C22", "C05")
+# BOUNDED stand-ins: differential checks of real functions that no contract reaches (never counted as proved; decisive only
+# as a refutation with a concrete input).  property -> (vreplay stand-in name, function, what is compared)
+BOUNDED_STANDINS = {
+    "C16": ("triples", "serde::de_tree::parse_triples", "parse_triples succeeds on exactly the inputs node_from_bytes accepts and consumes the same bytes"),
+    "C22": ("triples", "serde::de_tree::parse_triples", "the tree hashes parse_triples returns equal the recursive definition's"),
+}
 
 
 def dialect_witness_check(fnspecs):
@@ -661,8 +667,31 @@ def check_property(pid, tier="quick", seed=0):
         if dw["missing"]:
             problems.append("operator witnesses of unit DIALECT without a proved generic clause in their home unit: " + ", ".join(dw["missing"]))
 
+    # ---- bounded stand-ins (functions not under contract; every run) -----------------------------
+    standin_results = []
+    standin_violation = None
+    if pid in BOUNDED_STANDINS:
+        sname, sfn, swhat = BOUNDED_STANDINS[pid]
+        if replay_built is None:
+            replay_built = build_replay()
+        sr = run_replay(["standin", sname, str(seed)], timeout=600) if replay_built else None
+        if not sr or sr.get("error"):
+            problems.append(f"bounded stand-in {sname} could not run: {json.dumps(sr)[:200]}")
+        else:
+            standin_results.append({"function": sfn, "not_under_contract": True, "labelled": "bounded (never counted as proved)", "compares": swhat, **sr})
+            if sr.get("found"):
+                standin_violation = sr
+
     # ---- violations ---------------------------------------------------------------------------
     rc = 1 if any(l.startswith("VIOLATION") for l in kani_lines) else 0
+    if standin_violation:
+        os.makedirs(os.path.join(VERIF, "evidence", "replay"), exist_ok=True)
+        rpath = os.path.join(VERIF, "evidence", "replay", f"{pid}-bounded-standin-{BOUNDED_STANDINS[pid][0]}.json")
+        with open(rpath, "w") as fh:
+            json.dump({"property": pid, "failed_obligation": "bounded stand-in (differential check of the real code; function not under contract): " + BOUNDED_STANDINS[pid][2],
+                       "function": BOUNDED_STANDINS[pid][1], "failing_input": standin_violation, "replay_cmd": f"./check {pid} --replay {rpath}"}, fh, indent=1)
+        out_lines.append(f"VIOLATION property={pid} replay={rpath}")
+        rc = 1
     if side_violation:
         os.makedirs(os.path.join(VERIF, "evidence", "replay"), exist_ok=True)
         rpath = os.path.join(VERIF, "evidence", "replay", f"{pid}-precomputed-table.json")
@@ -733,7 +762,7 @@ def check_property(pid, tier="quick", seed=0):
             "seed_sweep": sweep,
             "back_end": "verus/z3", "solver_ms": solver_ms,
             "known_findings_reported": [l for l in out_lines if l.startswith("KNOWN-FINDING")],
-            "bounded_standins": [],
+            "bounded_standins": standin_results,
         },
         "assumptions": sorted(trusted),
         "wall_s": round(time.time() - t0, 2),
